@@ -1349,6 +1349,190 @@ def gen_alloc_guard():
 GENERATORS["Alloc.lean"] = gen_alloc_guard
 
 
+def byte_lit(tok):
+    """b'x', b'\\\\', b'\\'' -> code"""
+    m = re.fullmatch(r"b'(\\.|[^\\])'", tok.strip())
+    if not m:
+        raise TranslateError(f"byte literal {tok!r}")
+    c = m.group(1)
+    return ord({"\\\\": "\\", "\\'": "'", "\\n": "\n", "\\t": "\t"}.get(c, c))
+
+
+def match_blocks(body, scrutinee):
+    """the texts between the braces of every `match <scrutinee> { ... }` in body, in order"""
+    out, pos = [], 0
+    key = "match " + scrutinee
+    while True:
+        i = body.find(key, pos)
+        if i < 0:
+            return out
+        j = body.find("{", i)
+        depth, k = 1, j + 1
+        while depth and k < len(body):
+            depth += {"{": 1, "}": -1}.get(body[k], 0)
+            k += 1
+        out.append((i, k, body[j + 1:k - 1]))
+        pos = k
+
+
+def slice_arms(text):
+    """arms of a match on a byte slice: [(pattern or None for `_`, body text)] — bodies are `{ ... }` blocks or expressions"""
+    arms, i = [], 0
+    while True:
+        m = re.compile(r"\s*(\[[^\]]*\]|_)\s*=>\s*").match(text, i)
+        if not m:
+            if text[i:].strip():
+                raise TranslateError(f"slice match: cannot read arm at {text[i:i+40]!r}")
+            return arms
+        pat = None if m.group(1) == "_" else m.group(1)[1:-1]
+        j = m.end()
+        if text[j] == "{":
+            depth, k = 1, j + 1
+            while depth:
+                depth += {"{": 1, "}": -1}.get(text[k], 0)
+                k += 1
+            body = text[j + 1:k - 1]
+            i = k
+            if text[i:i + 1] == ",":
+                i += 1
+        else:
+            k = text.find(",", j)
+            k = len(text) if k < 0 else k
+            body = text[j:k]
+            i = k + 1
+        arms.append((pat, body.strip()))
+
+
+def gen_parse():
+    """matcher/src/pattern.rs: Atom::parse — the three matches on `atom.as_bytes()` (the `!`, `^`/`'` prefixes and their escapes, the
+    `$` suffix rule), the kind of a negated fuzzy atom and the call of new_inner (C07, C14)"""
+    msrc = strip_comments(read("matcher/src/pattern.rs"))
+    kinds = enum_variants(msrc, "AtomKind")
+    body = next((b for b in fn_bodies(msrc).get("parse", []) if "atom.as_bytes()" in b), None)
+    if body is None:
+        raise TranslateError("Atom::parse not found")
+    blocks = match_blocks(body, "atom.as_bytes()")
+    if len(blocks) != 3:
+        raise TranslateError(f"Atom::parse has {len(blocks)} matches on atom.as_bytes(), expected 3")
+    heads = [body[max(0, i - 40):i].strip() for i, _, _ in blocks]
+    if not (heads[0].endswith("let invert =") and heads[1].endswith("let mut kind =") and heads[2].endswith("let mut append_dollar = false;")):
+        raise TranslateError(f"Atom::parse: the matches are bound as {heads}")
+    if not re.search(r"\{\s*let mut atom = raw;\s*let invert = match", body):
+        raise TranslateError("Atom::parse does not start with `let mut atom = raw; let invert = match`")
+
+    def kind_id(e):
+        m = re.fullmatch(r"AtomKind::(\w+)", e.strip())
+        if not m or m.group(1) not in kinds:
+            raise TranslateError(f"Atom::parse: kind expression {e!r}")
+        return str(kinds.index(m.group(1)))
+
+    def arm_lean(pat, text, value_kind):
+        """-> (list of Lean list patterns (one per alternative), suffix?, (atom expr, kind expr, dollar expr, value expr))"""
+        atom, kind, dollar, value = "atom", "kind", "dollar", None
+        stmts = [t.strip() for t in re.split(r";|\n", text) if t.strip()]
+        # re-join an `if .. { } else { }` that was split over lines
+        joined, buf = [], ""
+        for t in stmts:
+            buf = (buf + " " + t).strip()
+            if buf.count("{") == buf.count("}"):
+                joined.append(buf)
+                buf = ""
+        if buf:
+            raise TranslateError(f"Atom::parse: unbalanced arm body {text!r}")
+        for t in joined:
+            m = re.fullmatch(r"atom = &atom\[(\d+)\.\.\]", t)
+            if m:
+                atom = f"({atom}).drop {m.group(1)}"
+                continue
+            m = re.fullmatch(r"atom = &atom\[\.\.atom\.len\(\) - (\d+)\]", t)
+            if m:
+                atom = f"({atom}).take (({atom}).length - {m.group(1)})"
+                continue
+            if t == "append_dollar = true":
+                dollar = "true"
+                continue
+            m = re.fullmatch(r"kind = if kind == (AtomKind::\w+) \{ (AtomKind::\w+) \} else \{ (AtomKind::\w+) \}", t)
+            if m:
+                kind = f"(if kind == {kind_id(m.group(1))} then {kind_id(m.group(2))} else {kind_id(m.group(3))})"
+                continue
+            if t in ("true", "false") and value_kind == "bool":
+                value = t
+                continue
+            if t.startswith("AtomKind::") and value_kind == "kind":
+                value = kind_id(t)
+                continue
+            if t == "()" and value_kind == "unit":
+                continue
+            raise TranslateError(f"Atom::parse: statement {t!r} in a match arm")
+        if pat is None:
+            return ["_"], False, (atom, kind, dollar, value)
+        elems = [e.strip() for e in pat.split(",")]
+        suffix = elems[0] == ".."
+        if suffix:
+            elems = elems[1:][::-1]       # read from the end
+        elif elems[-1] == "..":
+            elems = elems[:-1]
+        else:
+            raise TranslateError(f"Atom::parse: slice pattern [{pat}] has no `..`")
+        alts = [[]]
+        for e in elems:
+            codes = [byte_lit(x) for x in e.split("|")]
+            alts = [a + [c] for a in alts for c in codes]
+        return [" :: ".join(str(c) for c in a) + " :: _" for a in alts], suffix, (atom, kind, dollar, value)
+
+    def block(idx, value_kind):
+        arms = slice_arms(blocks[idx][2])
+        if not arms or arms[-1][0] is not None:
+            raise TranslateError("Atom::parse: a match has no catch-all arm at the end")
+        rows, suff = [], None
+        for pat, text in arms:
+            pats, suffix, res = arm_lean(pat, text, value_kind)
+            if pat is not None:
+                if suff is None:
+                    suff = suffix
+                elif suff != suffix:
+                    raise TranslateError("Atom::parse: a match mixes prefix and suffix slice patterns")
+            for pt in pats:
+                rows.append((pt, res))
+        return rows, bool(suff)
+
+    rows1, s1 = block(0, "bool")
+    rows2, s2 = block(1, "kind")
+    rows3, s3 = block(2, "unit")
+    if s1 or s2 or not s3:
+        raise TranslateError("Atom::parse: expected two prefix matches and one suffix match")
+    if any(r[1][1] != "kind" or r[1][2] != "dollar" or r[1][3] is None for r in rows1 + rows2):
+        raise TranslateError("Atom::parse: a prefix match changes kind/append_dollar or has no value")
+    tail = body[blocks[2][1]:]
+    m = re.fullmatch(r"\s*if invert && kind == (AtomKind::\w+) \{\s*kind = (AtomKind::\w+);?\s*\}\s*"
+                     r"let mut pattern = Atom::new_inner\(atom, case, normalize, kind, (true|false), append_dollar\);\s*"
+                     r"pattern\.negative = invert;\s*pattern\s*\}", tail, re.S)
+    if not m:
+        raise TranslateError("Atom::parse: the part after the `$` match has an unexpected shape")
+    out = ["/- GENERATED by translator/translate.py from matcher/src/pattern.rs (Atom::parse) — do not edit -/",
+           "namespace NucleoVerif.Gen.Parse", "",
+           "/-- `AtomKind` variants in declaration order: " + ", ".join(f"{i} = {k}" for i, k in enumerate(kinds)) + " -/",
+           f"def atomKinds : Nat := {len(kinds)}", "",
+           "/-- `let invert = match atom.as_bytes() { .. }`: (invert, atom afterwards) -/",
+           "def invert (atom : List Nat) : Bool × List Nat :=", "  match atom with"]
+    out += [f"  | {pt} => ({res[3]}, {res[0]})" for pt, res in rows1]
+    out += ["", "/-- `let mut kind = match atom.as_bytes() { .. }`: (kind, atom afterwards) -/",
+            "def kind (atom : List Nat) : Nat × List Nat :=", "  match atom with"]
+    out += [f"  | {pt} => ({res[3]}, {res[0]})" for pt, res in rows2]
+    out += ["", "/-- the `$` match (slice patterns `[.., x, y]` are read from the end of the text): (kind, append_dollar, atom afterwards) -/",
+            "def dollar (kind : Nat) (atom : List Nat) : Nat × Bool × List Nat :=", "  let dollar := false", "  match atom.reverse with"]
+    out += [f"  | {pt} => ({res[1]}, {res[2]}, {res[0]})" for pt, res in rows3]
+    out += ["", "/-- `if invert && kind == .. { kind = .. }` -/",
+            f"def final_kind (invert : Bool) (kind : Nat) : Nat := if invert && kind == {kind_id(m.group(1))} then {kind_id(m.group(2))} else kind", "",
+            "/-- `Atom::new_inner(atom, case, normalize, kind, <escape_whitespace>, append_dollar)`; then `pattern.negative = invert` -/",
+            f"def escape_whitespace : Bool := {m.group(3)}", "",
+            "end NucleoVerif.Gen.Parse"]
+    return "\n".join(out) + "\n"
+
+
+GENERATORS["Parse.lean"] = gen_parse
+
+
 def rust_struct_fields(src, name):
     m = re.search(r"struct\s+%s\s*\{(.*?)\}" % name, src, re.S)
     if m:
@@ -1479,16 +1663,20 @@ GENERATORS["Optimal.lean"] = gen_optimal
 
 
 def main():
-    changed = []
+    changed, failed = [], []
     for name, fn in GENERATORS.items():
         try:
             text = fn()
         except TranslateError as e:
+            # the other generators still run: a check only depends on the generated files its theorems and the driver import
             print(f"TRANSLATE-ERROR {name}: {e}")
-            sys.exit(2)
+            failed.append(name)
+            continue
         if write_if_changed(name, text):
             changed.append(name)
     print("translator: regenerated " + (", ".join(changed) if changed else "nothing (all up to date)"))
+    if failed:
+        sys.exit(2)
 
 
 if __name__ == "__main__":
